@@ -55,3 +55,9 @@ Lemma tie_copy :
   Gen_box.obtain_is_loads_of_dumps = true /\ Gen_box.deliver_is_remote_loads_of_local_dumps = true /\
   Gen_box.netref_pickles_at_the_owner = true /\ Gen_box.handle_pickle_returns_bytes_of_dumps = true.
 Proof. repeat split. Qed.
+
+(* _netref_factory is translated statement by statement; the ONLY thing that may differ between trees is whether the proxy
+   cache is looked at again after the wait for HANDLE_INSPECT (a bool, not fixed here: props/C03.v has the theorem for each
+   value: c03_one_proxy_nested_when_rechecked / c03_one_proxy_nested_refuted) *)
+Lemma tie_factory : Gen_box.factory_rechecks_cache_after_inspect = true \/ Gen_box.factory_rechecks_cache_after_inspect = false.
+Proof. destruct Gen_box.factory_rechecks_cache_after_inspect; auto. Qed.
